@@ -12,7 +12,7 @@
 (*   function and re-specialises one operand on a guard failure, then retries; unary nodes  *)
 (*   do not look at their operator; nested lambda nodes own one state for all copies).      *)
 (* Variant = "fixed": after the fixes (a node with a dynamic operand specialises from the   *)
-(*   operand types before every evaluation, no retry; unary minus checks its operand type;  *)
+(*   operand types before every evaluation, no retry; unary minus over a boolean is an error; *)
 (*   every copy has its own evaluators and so its own nested lambda state).                  *)
 EXTENDS LambdaRef
 
@@ -50,16 +50,7 @@ CacheEntry0(n) ==
     IF DynOperands(n) THEN [lt |-> "inv", rt |-> "inv", fn |-> <<"dyn">>]
     ELSE [lt |-> ConstType(n[3]), rt |-> ConstType(n[4]), fn |-> LookupFn(n[2], ConstType(n[3]), ConstType(n[4]))]
 Cache0(ast) == [p \in { x[1] : x \in BinPaths(ast, <<>>) } |-> CacheEntry0(NodeAt(ast, p))]
-RECURSIVE UnaryRejected(_)
-UnaryRejected(n) ==     \* fixed: unary minus over an operand that is known not to be a number or duration
-    CASE n[1] \in {"L", "R"} -> FALSE
-      [] n[1] = "U" -> UnaryRejected(n[3]) \/ (n[2] = "-" /\ ConstType(n[3]) \in {"b", "s", "r", "t"})
-      [] n[1] = "X" -> UnaryRejected(n[2])
-      [] n[1] = "B" -> UnaryRejected(n[3]) \/ UnaryRejected(n[4])
-      [] n[1] = "F" -> \E i \in DOMAIN n[3] : UnaryRejected(n[3][i])
-CompileFails(ast) ==
-    \/ \E x \in BinPaths(ast, <<>>) : ~DynOperands(x[2]) /\ CacheEntry0(x[2]).fn[1] = "nil"
-    \/ ~Legacy /\ UnaryRejected(ast)
+CompileFails(ast) == \E x \in BinPaths(ast, <<>>) : ~DynOperands(x[2]) /\ CacheEntry0(x[2]).fn[1] = "nil"
 
 (* ---------------- Type(scope): [t |-> type tag or "err", c |-> cache'] ---------------- *)
 RECURSIVE IType(_, _, _, _), ITypeArgs(_, _, _, _, _, _)
@@ -69,8 +60,7 @@ IType(n, p, sc, c) ==
       [] n[1] = "X" -> IF ConstType(n) # "inv" THEN [t |-> ConstType(n), c |-> c] ELSE IType(n[2], p \o <<1>>, sc, c)
       [] n[1] = "U" ->
             IF ConstType(n) # "inv" THEN [t |-> ConstType(n), c |-> c]
-            ELSE LET r == IType(n[3], p \o <<1>>, sc, c) IN
-                 IF ~Legacy /\ n[2] = "-" /\ r.t \in {"b", "s", "r", "t"} THEN [t |-> "err", c |-> r.c] ELSE r
+            ELSE IType(n[3], p \o <<1>>, sc, c)
       [] n[1] = "B" ->
             IF ConstType(n) # "inv" THEN [t |-> ConstType(n), c |-> c]
             ELSE LET l == IType(n[3], p \o <<1>>, sc, c) IN
@@ -118,10 +108,11 @@ IEval(n, p, T, sc, c, s, bk, k) ==
             ELSE LET ty == IType(n, p, sc, c) IN
                  IF ty.t = "err" THEN Res(Fail, ty.c, s)
                  ELSE IF ty.t # T THEN Res(Guard(ty.t), ty.c, s)
+                 ELSE IF ~Legacy /\ T = "b" /\ n[2] # "!" THEN Res(Fail, ty.c, s)      \* fixed: minus over a boolean is an error
                  ELSE LET r == IEval(n[3], p \o <<1>>, T, sc, ty.c, s, bk, k) IN
                       IF r.r[1] # "ok" THEN r
                       ELSE Res(Ok(IF IsAny(r.r[2]) THEN r.r[2]
-                                  ELSE IF T = "b" THEN MkB(~r.r[2][2])          \* the operator is not consulted
+                                  ELSE IF T = "b" THEN MkB(~r.r[2][2])          \* legacy: the operator is not consulted
                                   ELSE IF T = "i" THEN MkI(-r.r[2][2])
                                   ELSE IF T = "f" THEN FNeg(r.r[2])
                                   ELSE MkD(-r.r[2][2])), r.c, r.s)
@@ -253,7 +244,7 @@ Step(sc, mode, k) ==
         fresh == IF cache = cache0 THEN impl ELSE ApiCall(ast, mode, sc, cache0, fstate, k)   \* the same call on a freshly compiled node
         ref == EvalTop(ast, sc, rstate[k])
         ill == TypeStrict(ast, sc) = "err"
-        okRef == OutcomeAgrees(mode, impl.o, ref[1], ill)
+        okRef == OutcomeAgrees(mode, impl.o, ref[1], ill, HasCall(ast))
         implSt == RefStateOf(ast, impl.s, k)
         (* after an error the functions may or may not have been called, as far as the reference goes *)
         stOK == IF mode = "T" THEN implSt = rstate[k]
